@@ -75,8 +75,9 @@ class FoldMV:
     """ghost  F(i) = sum_{j<i} term(j)  over a symbolic list, Empty-aware, missing hours as zero.
     term(j) -> MV.  F is represented by uninterpreted functions E(i), IN(i,t), S(i,t), T(i); each use at (i,t)
     instantiates the one-step unfolding (definitional axioms of a primitive recursion: consistent)."""
-    def __init__(self, I, name, term, dim, with_total=True, idx_name=None):
+    def __init__(self, I, name, term, dim, with_total=True, idx_name=None, params=()):
         self.I, self.term, self.dim = I, term, dim
+        self.params = tuple(params)     # extra arguments of the ghost functions (folds nested in an outer index)
         # canonical naming: two folds with the same summand (as a term in the index J and time T) ARE the same ghost
         # function, so a specification and a library model of sum() that add up the same things agree by construction
         J, T_ = z3.Int("J!"), z3.Int("T!")
@@ -87,14 +88,20 @@ class FoldMV:
         I.eng.run.pc[:] = saved
         k = "F[" + cval + "]"
         ki = "F[" + cidx + "]"
-        self.E = z3.Function(f"{ki}.E", I_, B); self.IN = z3.Function(f"{ki}.IN", I_, I_, B)
-        self.S = z3.Function(f"{k}.S", I_, I_, R); self.T = z3.Function(f"{k}.T", I_, R)
+        if self.params:            # nested folds: explicit names (the summand mentions the outer index)
+            k, ki = name, (idx_name or name)
+        ps = [I_] * len(self.params)
+        E_ = z3.Function(f"{ki}.E", *ps, I_, B); IN_ = z3.Function(f"{ki}.IN", *ps, I_, I_, B)
+        S_ = z3.Function(f"{k}.S", *ps, I_, I_, R); T_f = z3.Function(f"{k}.T", *ps, I_, R)
+        P = self.params
+        self.E = lambda i: E_(*P, i); self.IN = lambda i, t: IN_(*P, i, t)
+        self.S = lambda i, t: S_(*P, i, t); self.T = lambda i: T_f(*P, i)
         self.with_total = with_total
         self.name = k
         self._done = set()
 
     def unfold(self, i, t):
-        key = (str(z3.simplify(i)), str(z3.simplify(t)))
+        key = (str(z3.simplify(i)), str(z3.simplify(t)), str(self.params))
         run = self.I.eng.run
         done = run.cache.setdefault(("foldmv", self.name), set())
         if key in done: return
@@ -126,13 +133,16 @@ class FoldMV:
 
 class FoldQ:
     """ghost  F(i) = sum_{j<i} phys(term(j))  (scalars)"""
-    def __init__(self, I, name, term):
+    def __init__(self, I, name, term, params=()):
         self.I, self.term = I, term
-        saved = list(I.eng.run.pc)
-        name = "FQ[" + str(z3.simplify(term(z3.Int("J!")))) + "]"
-        I.eng.run.pc[:] = saved
-        self.name = name
-        self.S = z3.Function(f"{name}.SQ", I_, R)
+        self.params = tuple(params)
+        if not self.params:
+            saved = list(I.eng.run.pc)
+            name = "FQ[" + str(z3.simplify(term(z3.Int("J!")))) + "]"
+            I.eng.run.pc[:] = saved
+        self.name = name + str([str(p) for p in self.params])
+        S_ = z3.Function(f"{name}.SQ", *([I_] * len(self.params)), I_, R)
+        self.S = lambda i: S_(*self.params, i)
 
     def at(self, i):
         run = self.I.eng.run
